@@ -12,6 +12,7 @@ from gambatools.automaton_algorithms import default_transition_label_regex, defa
 from gambatools.dfa import State, Symbol, print_state_set, DFA
 from gambatools.nfa import NFA
 from gambatools.identifier_generator import IdentifierGenerator
+from gambatools import _verif
 
 
 def _nfa_cache(N: NFA) -> Tuple[Mapping[State, Set[State]], Mapping[Tuple[State, Symbol], Set[State]]]:
@@ -31,11 +32,13 @@ def _nfa_cache(N: NFA) -> Tuple[Mapping[State, Set[State]], Mapping[Tuple[State,
 def epsilon_closure(N: NFA, q: Union[State, Set[State]]) -> Set[State]:
     result: Set[State] = q.copy() if isinstance(q, set) else {q}
     todo: Set[State] = result.copy()
+    if _verif.ON: _verif.emit('ec.start', start=sorted(result))
     while todo:
         q = todo.pop()
         Q1: Set[State] = N.delta[q, N.epsilon] - result
         result = result | Q1
         todo = todo | Q1
+        if _verif.ON: _verif.emit('ec.pop', q=q, result=sorted(result), todo=sorted(todo))
     return result
 
 
@@ -107,11 +110,13 @@ def nfa_find_epsilon_path(N: NFA, R: Set[State], f: State) -> Optional[List[Stat
     todo: Set[State] = set([r for r in R])
     while len(todo) > 0:
         src = todo.pop()
+        if _verif.ON: _verif.emit('path.pop', src=src)
         for (p, a), Q1 in delta.items():
             if p != src or a != epsilon:
                 continue
             for q in Q1:
                 target = q
+                if _verif.ON: _verif.emit('path.edge', src=src, target=target)
                 if target not in visited:
                     backpointers[target] = src
                     if target == f:
